@@ -323,7 +323,7 @@ func genPred(r *hx.Rng, h *history, depth int, allowRegex bool, res *[]*reAtom, 
 			at := &reAtom{idx: len(*res), text: text, re: re, key: k}
 			if sre, err := syntax.Parse(text, syntax.Perl); err == nil {
 				at.anchored = hasAnchor(sre)
-				at.literal = sre.Op == syntax.OpLiteral && sre.Flags&syntax.FoldCase == 0
+				at.literal = pureLiteral(text, sre)
 			}
 			*res = append(*res, at)
 			kind := byte('~')
